@@ -10,7 +10,7 @@ import (
 )
 
 func init() {
-	register("C01", checkC01, "For each of the 20 request types (10 function codes x TCP/RTU) the encoder Bytes() is abstractly interpreted under the success state of its constructor (\"any request the library agrees to construct\"), symbolically in every field value. R1.1: the recorded writes must tile the buffer without gap or overlap and equal the specification layout (MBAP: transaction id, protocol 0, length = bytes that follow; unit id; function code; big-endian fields; byte count = len(payload); payload; RTU: CRC trailer) instantiated through the field-role table. R1.2: on the constructor's success path every quantity lies within the specification's per-function limits and the payload length is tied to the quantity as specified. R1.3: the frame length is at most 260 (TCP) / 256 (RTU). R1.4: CoilsToBytes puts coil j at bit j mod 8 of byte j div 8 for every j in 0..n-1 and returns ceil(n/8) bytes. R1.W: no narrow-typed arithmetic in constructor or encoder can wrap. The random transaction id value is not constrained (any value is legal). R1.5 for an arbitrary struct (exported fields rewritten after construction) the ten TCP encoders still write the constant 0 into the protocol-identifier bytes 2..3. R1.5 also requires bytes 0..1 to be the struct's own TransactionID for any struct contents. R1.6 nothing reachable from request construction and encoding uses a package-level variable that is not constant after initialisation (shared-state rule: module-wide set of variables stored to or handed out outside init; locks, write-only atomics, sync.Once initialisers whose other uses are dominated by the Do call, and private sync.Pool objects are exempt).")
+	register("C01", checkC01, "For each of the 20 request types (10 function codes x TCP/RTU) the encoder Bytes() is abstractly interpreted under the success state of its constructor (\"any request the library agrees to construct\"), symbolically in every field value. R1.1: the recorded writes must tile the buffer without gap or overlap and equal the specification layout (MBAP: transaction id, protocol 0, length = bytes that follow; unit id; function code; big-endian fields; byte count = len(payload); payload; RTU: CRC trailer) instantiated through the field-role table. R1.2: on the constructor's success path every quantity lies within the specification's per-function limits and the payload length is tied to the quantity as specified. R1.3: the frame length is at most 260 (TCP) / 256 (RTU). R1.4: CoilsToBytes puts coil j at bit j mod 8 of byte j div 8 for every j in 0..n-1 and returns ceil(n/8) bytes. R1.W: no narrow-typed arithmetic in constructor or encoder can wrap. The random transaction id value is not constrained (any value is legal). R1.5 for an arbitrary struct (exported fields rewritten after construction) the ten TCP encoders still write the constant 0 into the protocol-identifier bytes 2..3. R1.5 also requires bytes 0..1 to be the struct's own TransactionID for any struct contents. R1.6 nothing reachable from request construction and encoding uses a package-level variable that is not constant after initialisation (shared-state rule: module-wide set of variables stored to or handed out outside init; locks, write-only atomics, sync.Once initialisers whose other uses are dominated by the Do call, and private sync.Pool objects are exempt). R1.7 no method declared on a request type (or on a struct it embeds) stores through its receiver or writes memory derived from the request's byte fields (derived-pointer analysis of C13 rooted at every such method, including those fmt calls implicitly).")
 }
 
 // requestTypes: named struct types of the package with an ExpectedResponseLength method.
